@@ -225,6 +225,21 @@ def run_harness(binpath, cases, tag, timeout, jobs=None, max_paths=2000000, witn
     return summary, log_path
 
 
+def normalize_crash(r):
+    """crash records of case roots carry only the case line and a breadcrumb: fill in the case fields and the model"""
+    if r.get('type') != 'crash':
+        return r
+    c = parse_case(r.get('case', '')) if r.get('case') and r.get('case') != '(orphan)' else {}
+    for k, v in c.items():
+        r.setdefault(k, v)
+    if not r.get('model') and ' ## ' in (r.get('crumb') or ''):
+        try:
+            r['model'] = json.loads(r['crumb'].split(' ## ')[-1])
+        except Exception:
+            pass
+    return r
+
+
 def iter_log(path):
     with open(path) as f:
         for line in f:
@@ -232,7 +247,7 @@ def iter_log(path):
             if not line:
                 continue
             try:
-                yield json.loads(line)
+                yield normalize_crash(json.loads(line))
             except json.JSONDecodeError:
                 yield {'type': 'garbled', 'raw': line[:200]}
 
@@ -436,6 +451,11 @@ def family(name):
     if name.startswith('C') and name[1:].isdigit():
         n = int(name[1:])
         return n, [(i, (i + 1) % n) for i in range(n)]
+    if name.startswith('cyc') and 'c' in name[3:]:
+        # cycNcK: cycle on N vertices plus the chord (0,K)
+        n, k = name[3:].split('c')
+        n, k = int(n), int(k)
+        return n, [(i, (i + 1) % n) for i in range(n)] + [(0, k)]
     if name == 'two_triangles_bridge':
         return 6, [(0, 1), (1, 2), (0, 2), (2, 3), (3, 4), (4, 5), (3, 5)]
     if name == 'tri_plus_tri':
